@@ -1008,7 +1008,7 @@ pub fn c15_checks() -> Vec<Box<dyn DynCheck>> {
 
 // ------------------------------------------------------------------------------ C17
 
-pub const C17_RULE: &str = "model-based histories on few-piece and opening positions with a shuffle-biased policy (Reverse = play the mover's previous move backwards, so positions recur; Move/Quiet for triangulation; rook/king excursions that lose castling rights; double steps creating en-passant opportunities) and interleaved undos: every position is registered as it arises (turn flipped by the caller first, as the game loops do) and unregistered before its move is undone. Oracle: reference multiset keyed by (placement, side to move, castling rights, en-passant target): count_current_position() == occurrences after insertion, uncount_current_position() == occurrences after removal, max_seen_position_count() == last reported count. Where the literal en-passant-target reading and the FIDE reading (target only counts if a capture is possible) give different counts the step is not asserted (counted as ep-ambiguous). Game level: shuffle games through Game::from_board / apply_chess_move_by_from_to_coordinates / toggle_turn: check_game_over_for_current_turn() on non-terminal positions must be Draw iff the current position has now occurred three times (or the half-move clock reached 100). Non-trivial = history has a true recurrence (count >= 2) and a look-alike (same placement with the other side to move or other rights/ep); distinct = hash of the op sequence.";
+pub const C17_RULE: &str = "model-based histories on few-piece and opening positions with a shuffle-biased policy (Reverse = play the mover's previous move backwards, so positions recur; Move/Quiet for triangulation; rook/king excursions that lose castling rights; double steps creating en-passant opportunities) and interleaved undos: every position is registered as it arises (turn flipped by the caller first, as the game loops do) and unregistered before its move is undone. Oracle: reference multiset keyed by (placement, side to move, castling rights, en-passant target): count_current_position() == occurrences after insertion, uncount_current_position() == occurrences after removal, max_seen_position_count() == last reported count. Where the literal en-passant-target reading and the FIDE reading (target only counts if a capture is possible) give different counts the step is not asserted (counted as ep-ambiguous). Game level: shuffle games through Game::from_board / apply_chess_move_by_from_to_coordinates / toggle_turn: check_game_over_for_current_turn() on non-terminal positions must be Draw iff the current position has now occurred three times (or the half-move clock reached 100). Engine games: the engine plays both sides through make_waterfall_book_then_alpha_beta_move from tiny endgames (every move legal, successor exact, draw verdict iff third occurrence). Non-trivial = history has a true recurrence (count >= 2) and a look-alike (same placement with the other side to move or other rights/ep); distinct = hash of the op sequence.";
 
 #[derive(Clone, Debug, Serialize, Deserialize, PartialEq)]
 pub enum ROp {
@@ -1342,8 +1342,131 @@ impl Prop for C17Game {
     }
 }
 
+/// The engine plays both sides through Game::make_waterfall_book_then_alpha_beta_move (as the
+/// `watch` loop does): every move made must be legal and produce the reference successor, and
+/// the draw verdict must follow the occurrence count of the reference multiset.
+#[derive(Clone, Debug, Serialize, Deserialize)]
+pub struct EngineGameCase {
+    pub fen: String,
+    pub plies: u8,
+    pub depth: u8,
+}
+
+pub struct C17EngineGame;
+impl Prop for C17EngineGame {
+    type Case = EngineGameCase;
+    fn name(&self) -> &'static str {
+        "C17/engine-game"
+    }
+    fn max_shrink_iters(&self) -> u32 {
+        100
+    }
+    fn strategy(&self, _tier: Tier) -> BoxedStrategy<EngineGameCase> {
+        let zero = |mut p: Pos| {
+            p.half = 0;
+            p.fen()
+        };
+        (
+            prop_oneof![
+                5 => gen::endgame(2).prop_map(move |r| zero(gen::build(&r))),
+                2 => gen::endgame(4).prop_map(move |r| zero(gen::build(&r))),
+                1 => gen::pawn_race().prop_map(move |r| zero(gen::build(&r))),
+            ],
+            8u8..40,
+            1u8..=2,
+        )
+            .prop_map(|(fen, plies, depth)| EngineGameCase { fen, plies, depth })
+            .boxed()
+    }
+    fn cases(&self, tier: Tier) -> u32 {
+        tier.pick(96, 2_400)
+    }
+    fn test(&self, c: &EngineGameCase, st: &mut Stats) -> TestResult {
+        let mut cur = Pos::from_fen(&c.fen).map_err(Failure::new)?;
+        cur.half = 0;
+        let depth = if cur.men() > 4 { 1 } else { c.depth };
+        let mut game = Game::from_board(to_board(&cur), depth);
+        let mut lit: BTreeMap<Key, u32> = BTreeMap::new();
+        let mut fide: BTreeMap<Key, u32> = BTreeMap::new();
+        lit.insert(key_literal(&cur), 1);
+        fide.insert(key_fide(&cur), 1);
+        let mut moves: Vec<Mv> = Vec::new();
+        let mut max_count = 1;
+        for _ in 0..c.plies {
+            let legal = cur.legal_moves();
+            if legal.is_empty() {
+                break;
+            }
+            let made = match no_panic(|| game.make_waterfall_book_then_alpha_beta_move()) {
+                Ok(Ok(m)) => mv_of(&m),
+                Ok(Err(e)) => return Err(fail_pos(format!("the engine could not make a move: {:?}", e), &cur)),
+                Err(m) => return Err(fail_pos(format!("making the engine's move panicked: {}", m), &cur)),
+            };
+            if !legal.contains(&made) {
+                return Err(fail_pos(format!("the engine made {}, which is not legal", mv_text(&made)), &cur));
+            }
+            let next = cur.make(&made);
+            if let Err(e) = successor_matches(&game, &next, cur.side) {
+                return Err(fail_pos(format!("after the engine's own move {}: {}", mv_text(&made), e), &cur));
+            }
+            ensure!(
+                game.most_recent_move().map(|m| mv_of(&m)) == Some(made),
+                "the engine's move {} is not the most recent move of the history",
+                mv_text(&made)
+            );
+            game.board_mut().toggle_turn();
+            cur = next;
+            moves.push(made);
+            let a = {
+                let e = lit.entry(key_literal(&cur)).or_insert(0);
+                *e += 1;
+                *e
+            };
+            let b = {
+                let e = fide.entry(key_fide(&cur)).or_insert(0);
+                *e += 1;
+                *e
+            };
+            max_count = max_count.max(a);
+            if cur.legal_moves().is_empty() {
+                break;
+            }
+            let ending = game.check_game_over_for_current_turn();
+            let is_draw = matches!(ending, Some(GameEnding::Draw));
+            st.count("engine_moves_checked", 1);
+            if a != b {
+                if is_draw {
+                    break;
+                }
+                continue;
+            }
+            let want = a >= 3 || cur.half >= 100;
+            if is_draw != want {
+                return Err(fail_pos(
+                    format!(
+                        "after {} engine moves the current position has occurred {} time(s) (half-move clock {}), but check_game_over_for_current_turn() = {:?}",
+                        moves.len(),
+                        a,
+                        cur.half,
+                        ending
+                    ),
+                    &cur,
+                ));
+            }
+            if want {
+                break;
+            }
+        }
+        if max_count >= 2 {
+            st.label(if max_count >= 3 { "third-occurrence-reached" } else { "recurrence" });
+            st.nontrivial(fp_of(c), || json!({"seed": c.fen, "depth": depth, "moves": moves.iter().map(notation::uci).collect::<Vec<_>>().join(" ")}));
+        }
+        Ok(())
+    }
+}
+
 pub fn c17_checks() -> Vec<Box<dyn DynCheck>> {
-    vec![Box::new(C17Board), Box::new(C17Game)]
+    vec![Box::new(C17Board), Box::new(C17Game), Box::new(C17EngineGame)]
 }
 
 #[allow(dead_code)]
